@@ -15,7 +15,11 @@ CLAIMS = {
                 "REGENERATED from utils.py / simulator.py on every run (EventTime operators, EventType values, "
                 "Event.__lt__); the abstract priority queue is tied to the real EventQueue by differential histories, "
                 "and a Gallina monitor (pop_minimal, proved equivalent to the theorem's conclusion) is applied to the "
-                "implementation's own pop log to produce failing inputs.",
+                "implementation's own pop log to produce failing inputs. Whole-simulation part: the order in which the "
+                "simulator's OWN queue hands out events in every generated simulation (re-timed placements without or with "
+                "reheapify, removed events, per-microsecond retries) is judged by the documented key on the "
+                "implementation's log; the corresponding theorems about the machine with the queue are C03's "
+                "(C03_popped_is_minimal_at_clock, C03_handled_is_popped).",
         "design_ref": "DESIGN.md §5 C16, §4.1",
         "note": "Coq kernel; translator fragments Time+Event; float exactness below 2^53 and CPython heapq/total_ordering "
                 "are modelled, not verified (checked by S-time / S-queue streams).",
